@@ -48,12 +48,12 @@ pub fn run(spec: &Value) -> Result<Option<String>, String> {
         verif::set_clock(Some(c));
     }
     let outcome = match decoder {
-        "socks5_address" => socks5::address::decode(&mut src).map(|_| ()).map_err(|e| e.to_string()),
-        "socks5_initial_request" => socks5::codec::Socks5InitialRequestDecoder.decode(&mut src).map(|_| ()).map_err(|e| e.to_string()),
-        "socks5_command_request" => socks5::codec::Socks5CommandRequestDecoder.decode(&mut src).map(|_| ()).map_err(|e| e.to_string()),
-        "socks5_initial_response" => socks5::codec::Socks5InitialResponseDecoder.decode(&mut src).map(|_| ()).map_err(|e| e.to_string()),
-        "socks5_command_response" => socks5::codec::Socks5CommandResponseDecoder.decode(&mut src).map(|_| ()).map_err(|e| e.to_string()),
-        "socks5_udp" => socks5::codec::Socks5UdpCodec.decode(&mut src).map(|_| ()).map_err(|e| e.to_string()),
+        "socks5_address" => socks5::address::decode(&mut src).map(|o| item_of(&o)).map_err(|e| e.to_string()),
+        "socks5_initial_request" => socks5::codec::Socks5InitialRequestDecoder.decode(&mut src).map(|o| item_of(&o)).map_err(|e| e.to_string()),
+        "socks5_command_request" => socks5::codec::Socks5CommandRequestDecoder.decode(&mut src).map(|o| item_of(&o)).map_err(|e| e.to_string()),
+        "socks5_initial_response" => socks5::codec::Socks5InitialResponseDecoder.decode(&mut src).map(|o| item_of(&o)).map_err(|e| e.to_string()),
+        "socks5_command_response" => socks5::codec::Socks5CommandResponseDecoder.decode(&mut src).map(|o| item_of(&o)).map_err(|e| e.to_string()),
+        "socks5_udp" => socks5::codec::Socks5UdpCodec.decode(&mut src).map(|o| item_of(&o)).map_err(|e| e.to_string()),
         "trojan_server" => crate::trojan::server_decode(cfg, &mut src),
         "trojan_client_udp" => crate::trojan::client_udp_decode(&mut src),
         "ss_tcp" => {
@@ -79,8 +79,33 @@ pub fn run(spec: &Value) -> Result<Option<String>, String> {
     verif::script_opens(None);
     verif::set_clock(None);
     // no panic: the real code returned
-    let _ = outcome;
-    Ok(None)
+    match (spec["expect"].as_str(), outcome) {
+        (Some("accept"), Ok(true)) => Ok(Some("the decoder accepted the input and produced an item".to_owned())),
+        (Some("error"), Err(e)) => Ok(Some(format!("the decoder returned an error: {e}"))),
+        _ => Ok(None),
+    }
+}
+
+pub trait ItemLike {
+    fn produced(&self) -> bool;
+}
+impl<T> ItemLike for Option<T> {
+    fn produced(&self) -> bool {
+        self.is_some()
+    }
+}
+impl ItemLike for octo_squirrel::protocol::address::Address {
+    fn produced(&self) -> bool {
+        true
+    }
+}
+impl<A, B, C> ItemLike for (A, B, C) {
+    fn produced(&self) -> bool {
+        true
+    }
+}
+pub fn item_of<T: ItemLike>(o: &T) -> bool {
+    o.produced()
 }
 
 pub fn user_manager<const N: usize>(on: bool) -> Option<Arc<ServerUserManager<N>>> {
@@ -92,7 +117,7 @@ pub fn user_manager<const N: usize>(on: bool) -> Option<Arc<ServerUserManager<N>
     Some(Arc::new(m))
 }
 
-fn ss_tcp<const N: usize>(spec: &Value, cfg: &Value, src: &mut BytesMut) -> Result<(), String> {
+fn ss_tcp<const N: usize>(spec: &Value, cfg: &Value, src: &mut BytesMut) -> Result<bool, String> {
     let kind = kind_of(cfg["kind"].as_str().unwrap_or(""))?;
     let mode = if cfg["mode"].as_str() == Some("Client") { Mode::Client } else { Mode::Server };
     let users = cfg["users"].as_bool().unwrap_or(false);
@@ -122,7 +147,7 @@ fn ss_tcp<const N: usize>(spec: &Value, cfg: &Value, src: &mut BytesMut) -> Resu
                 let mut input = src.clone();
                 let _ = c2.decode(&context, &mut s2, &mut input);
             }
-            return Ok(());
+            return Ok(false);
         }
     }
     if users && mode_is_server(cfg) && src.len() >= N + 16 {
@@ -139,14 +164,14 @@ fn ss_tcp<const N: usize>(spec: &Value, cfg: &Value, src: &mut BytesMut) -> Resu
         src[N..N + 16].copy_from_slice(&block);
     }
     verif::script_opens(Some(opens_of(spec)));
-    codec.decode(&context, &mut session, src).map(|_| ()).map_err(|e| e.to_string())
+    codec.decode(&context, &mut session, src).map(|o| item_of(&o)).map_err(|e| e.to_string())
 }
 
 fn mode_is_server(cfg: &Value) -> bool {
     cfg["mode"].as_str() != Some("Client")
 }
 
-fn ss_udp<const N: usize>(spec: &Value, cfg: &Value, src: &mut BytesMut) -> Result<(), String> {
+fn ss_udp<const N: usize>(spec: &Value, cfg: &Value, src: &mut BytesMut) -> Result<bool, String> {
     let kind = kind_of(cfg["kind"].as_str().unwrap_or(""))?;
     let mode = if cfg["mode"].as_str() == Some("Client") { Mode::Client } else { Mode::Server };
     let users = cfg["users"].as_bool().unwrap_or(false);
@@ -170,5 +195,5 @@ fn ss_udp<const N: usize>(spec: &Value, cfg: &Value, src: &mut BytesMut) -> Resu
         src[16..32].copy_from_slice(&block);
     }
     verif::script_opens(Some(opens_of(spec)));
-    codec.decode(src).map(|_| ()).map_err(|e| e.to_string())
+    codec.decode(src).map(|o| item_of(&o)).map_err(|e| e.to_string())
 }
